@@ -1252,13 +1252,16 @@ def run_dimacs_direct(ctx, res, cs):
 
 
 def has_complement_xor(j):
-    """an Xor/Or/And node that keeps an expression and its negation among its arguments
-    (qlasskit builds such unevaluated nodes, e.g. `a ^ ~a` for `a != (not a)`, `a | ~a`)"""
-    if j[0] in ("xor", "or", "and"):
-        args = j[1:]
-        for x in args:
-            if x[0] == "not" and x[1] in args:
-                return True
+    """trigger of C17-anf-complement-args: the expression keeps a sub-expression that mentions
+    symbols but is constant (`a ^ ~a`, `a | ~a`, `a ^ b ^ ~(a ^ b)` - qlasskit builds such
+    unevaluated nodes for `a != (not a)`, `(not a) or a`, ...); sympy 1.12 `to_anf` is unsound there"""
+    if j[0] in ("tt", "ff", "sym"):
+        return False
+    names = B.syms_json(j)
+    if names and len(names) <= 10:
+        tt = B.truth_table(names, [j])
+        if tt.count("1") in (0, len(tt)):
+            return True
     return any(has_complement_xor(x) for x in j[1:] if isinstance(x, list))
 
 
